@@ -57,6 +57,10 @@ func ClassifyWord(w string) string {
 // ^= / ~=): such inputs are only subject to the token-truth invariants.
 func RefLex(q string) (toks []RefTok, ok bool) {
 	ok = true
+	if strings.ContainsAny(q, "\t\n\r\v\f") {
+		// blanks other than the space: not described, no reference tokens
+		ok = false
+	}
 	i := 0
 	n := len(q)
 	for i < n {
